@@ -124,6 +124,14 @@ func (i *Interpreter) evaluateAsyncExpr(expr AsyncExpr, env *Environment) (inter
 
 	// Execute the async block in a separate goroutine
 	go func() {
+		// A panic in this goroutine would take the whole process down; turn
+		// it into a rejected future, as the VM does for its async bodies.
+		defer func() {
+			if r := recover(); r != nil {
+				future.Reject(fmt.Errorf("async panic: %v", r))
+			}
+		}()
+
 		// Check for cancellation before starting
 		select {
 		case <-future.Cancelled():
